@@ -415,6 +415,14 @@ func RunScript(kind, script string, timeout time.Duration) (Result, error) {
 		cmd = exec.Command("cvc5", "--incremental", "--lang", "smt2", fmt.Sprintf("--tlimit-per=%d", ms))
 		script = "(set-logic ALL)\n" + script
 	}
+	var keep []string
+	for _, l := range strings.Split(script, "\n") {
+		if strings.HasPrefix(l, "(get-value") {
+			continue
+		}
+		keep = append(keep, l)
+	}
+	script = strings.Join(keep, "\n") + "\n"
 	cmd.Stdin = strings.NewReader(script)
 	out, err := cmd.CombinedOutput()
 	txt := string(out)
